@@ -282,6 +282,49 @@ pub struct GenSlot {
     pub c03_extra: usize,
 }
 
+/// A live generator on its way from one thread to another (L2a hand-over).
+pub struct Parcel {
+    gen: SpeechGenerator,
+    fp: usize,
+    frames: usize,
+    cursor: usize,
+    collected: Vec<f64>,
+    key: String,
+    bufsizes_seen: u8,
+    steps: usize,
+    heavy: bool,
+    c03_extra: usize,
+}
+
+pub enum BoxState {
+    Pending,
+    Given(Box<Parcel>),
+    Closed,
+}
+
+static BOXES: std::sync::Mutex<Vec<BoxState>> = std::sync::Mutex::new(Vec::new());
+
+/// All mailboxes back to `Pending` (start of a pass over a plan).
+pub fn boxes_reset() {
+    let mut b = BOXES.lock().unwrap_or_else(|e| e.into_inner());
+    b.clear();
+    for _ in 0..4 {
+        b.push(BoxState::Pending);
+    }
+}
+
+/// The giver of mailbox `i` has finished its program: whoever waits for it stops waiting.
+pub fn box_close_if_pending(i: usize) {
+    let mut b = BOXES.lock().unwrap_or_else(|e| e.into_inner());
+    if let Some(x) = b.get_mut(i) {
+        if matches!(x, BoxState::Pending) {
+            *x = BoxState::Closed;
+        }
+    }
+    drop(b);
+    crate::sched::notify_event();
+}
+
 #[derive(Clone)]
 pub enum Outcome {
     Wave { hash: u64, wave: Rc<Vec<f64>> },
@@ -1370,6 +1413,75 @@ impl<'a> Sim<'a> {
                 }
                 Ok(())
             }
+            Op::GiveGen { g, b } => {
+                let parcel = match self.gens.get_mut(*g).and_then(|x| x.take()) {
+                    Some(gs) if gs.reference.is_none() => Some(Box::new(Parcel { gen: gs.gen, fp: gs.fp, frames: gs.frames, cursor: gs.cursor, collected: gs.collected, key: gs.key, bufsizes_seen: gs.bufsizes_seen, steps: gs.steps, heavy: gs.heavy, c03_extra: gs.c03_extra })),
+                    _ => None,
+                };
+                let mut bx = BOXES.lock().unwrap_or_else(|e| e.into_inner());
+                if let Some(x) = bx.get_mut(*b) {
+                    *x = match parcel {
+                        Some(p) => {
+                            self.stats.probe("generator_given_to_another_thread");
+                            BoxState::Given(p)
+                        }
+                        None => BoxState::Closed,
+                    };
+                }
+                drop(bx);
+                crate::sched::notify_event();
+                Ok(())
+            }
+            Op::TakeGen { g, b } => {
+                if *g >= MAX_GENS {
+                    self.stats.noop_ops += 1;
+                    return Ok(());
+                }
+                let mut spins = 0u64;
+                loop {
+                    let got = {
+                        let mut bx = BOXES.lock().unwrap_or_else(|e| e.into_inner());
+                        match bx.get_mut(*b) {
+                            Some(x) => match std::mem::replace(x, BoxState::Closed) {
+                                BoxState::Given(p) => Some(Some(p)),
+                                BoxState::Closed => Some(None),
+                                BoxState::Pending => {
+                                    *x = BoxState::Pending;
+                                    None
+                                }
+                            },
+                            None => Some(None),
+                        }
+                    };
+                    match got {
+                        Some(Some(p)) => {
+                            let p = *p;
+                            self.gens[*g] = Some(GenSlot { gen: p.gen, fp: p.fp, frames: p.frames, cursor: p.cursor, reference: None, collected: p.collected, key: p.key, last_task: task, bufsizes_seen: p.bufsizes_seen, steps: p.steps, heavy: p.heavy, c03_extra: p.c03_extra });
+                            self.stats.probe("generator_taken_over_from_another_thread");
+                            if p.cursor > 0 {
+                                self.stats.probe("generator_taken_over_mid_stream");
+                            }
+                            return Ok(());
+                        }
+                        Some(None) => {
+                            self.stats.noop_ops += 1;
+                            return Ok(());
+                        }
+                        None => {
+                            // not there yet: outside the threaded pass nobody will bring it
+                            if !crate::sched::in_simulated_thread() {
+                                self.stats.noop_ops += 1;
+                                return Ok(());
+                            }
+                            spins += 1;
+                            if spins > 1_000_000 {
+                                return Err(Stop::Harness(HarnessError("TakeGen: the giver never arrived".into())));
+                            }
+                            crate::sched::wait_event();
+                        }
+                    }
+                }
+            }
             Op::Reset => {
                 for g in self.gens.iter_mut() {
                     *g = None;
@@ -1582,6 +1694,12 @@ impl<'a> Sim<'a> {
             }
             if frames >= 65536 {
                 self.stats.probe("generator_65536_frames_or_more");
+            }
+            if frames >= 256 && frames % 256 == 0 {
+                self.stats.probe("generator_frames_exact_multiple_of_256");
+            }
+            if frames >= 512 && frames % 512 == 0 {
+                self.stats.probe("generator_frames_exact_multiple_of_512");
             }
             {
                 let c = &self.engines[e].as_ref().unwrap().eng.condition;
